@@ -356,7 +356,7 @@ func runPeer(line string, t []string) string {
 			case g > 12:
 				gb = ">12"
 			}
-			out = append(out, fmt.Sprintf("c=%d:%s", peerConns()-baseConns, gb))
+			out = append(out, fmt.Sprintf("c=%d:%s:%d", peerConns()-baseConns, gb, g))
 		default:
 			return "bad-op"
 		}
